@@ -185,7 +185,12 @@ func init() {
 		if f := c.fn("light/rpc", "Client.BlockResults"); f != nil {
 			for _, call := range w.callsTo(f, "bytes#Equal") {
 				if strings.Contains(w.callStr(call), "LastResultsHash") {
-					clientCtor = norm(w.expr(call.Common().Args[0]))
+					// bytes.Equal is symmetric: the recomputed side is the operand that is not the header field
+					for _, a := range call.Common().Args {
+						if !strings.HasSuffix(w.expr(a), ".LastResultsHash") {
+							clientCtor = norm(w.expr(a))
+						}
+					}
 				}
 			}
 		}
@@ -256,37 +261,35 @@ func init() {
 			if f == nil {
 				continue
 			}
-			proofs := w.callsTo(f, "types#Txs.Proof")
+			// the Proof call in the handler, or in a helper carved out of it (rendered in the handler's terms)
+			proofs := w.deepCallsTo(f, 2, "types#Txs.Proof")
 			c.Check(len(proofs) == 1, "rpc/core."+name+" builds the proof in one place", w.pos(f.Pos()), "one Proof call", fmt.Sprintf("%d Proof calls", len(proofs)))
-			for _, p := range proofs {
-				s := w.callStr(p)
-				m := regexp.MustCompile(`^rpc/core\.env\.BlockStore\.LoadBlock\((.*)\.Height\)\.Data\.Txs\.Proof\((.*)\.Index\)$`).FindStringSubmatch(s)
-				if m == nil {
-					// compare structurally: receiver must be LoadBlock(r.Height).Data.Txs and the argument r.Index for the same r
-					recv, arg := w.expr(callRecv(p)), w.expr(callArgs(p)[0])
-					if strings.HasPrefix(recv, "rpc/core.env.BlockStore.LoadBlock(") && strings.HasSuffix(recv, ".Height).Data.Txs") && strings.HasSuffix(arg, ".Index") {
-						r1 := strings.TrimSuffix(strings.TrimPrefix(recv, "rpc/core.env.BlockStore.LoadBlock("), ".Height).Data.Txs")
-						r2 := strings.TrimSuffix(arg, ".Index")
-						// rendering depth can abbreviate the longer one: compare the common prefix up to the first ellipsis
-						cut := func(x string) string {
-							if i := strings.Index(x, "…"); i >= 0 {
-								return x[:i]
-							}
-							return x
+			for _, dc := range proofs {
+				recv, arg := w.exprWith(callRecv(dc.call), dc.sub), dc.arg(0)
+				s := recv + ".Proof(" + arg + ")"
+				var m []string
+				if strings.HasPrefix(recv, "rpc/core.env.BlockStore.LoadBlock(") && strings.HasSuffix(recv, ".Height).Data.Txs") && strings.HasSuffix(arg, ".Index") {
+					r1 := strings.TrimSuffix(strings.TrimPrefix(recv, "rpc/core.env.BlockStore.LoadBlock("), ".Height).Data.Txs")
+					r2 := strings.TrimSuffix(arg, ".Index")
+					// rendering depth can abbreviate the longer one: compare the common prefix up to the first ellipsis
+					cut := func(x string) string {
+						if i := strings.Index(x, "…"); i >= 0 {
+							return x[:i]
 						}
-						a, b := cut(r1), cut(r2)
-						if len(a) > len(b) {
-							a = a[:len(b)]
-						} else {
-							b = b[:len(a)]
-						}
-						if a == b {
-							m = []string{s, r1, r1}
-						}
+						return x
+					}
+					a, b := cut(r1), cut(r2)
+					if len(a) > len(b) {
+						a = a[:len(b)]
+					} else {
+						b = b[:len(a)]
+					}
+					if a == b {
+						m = []string{s, r1, r1}
 					}
 				}
-				c.Check(m != nil && m[1] == m[2], "rpc/core."+name+" proves index r.Index in the block loaded at r.Height for the same result r", w.ipos(p), s, "proof built as "+s+" (the block must be loaded for this very result's height)")
-				c.guards(f, p, "rpc/core."+name+" :: build proof", 0, guardRe("proof was requested", `^true\(prove\)$`))
+				c.Check(m != nil && m[1] == m[2], "rpc/core."+name+" proves index r.Index in the block loaded at r.Height for the same result r", w.ipos(dc.site), s, "proof built as "+s+" (the block must be loaded for this very result's height)")
+				c.guards(f, dc.site, "rpc/core."+name+" :: build proof", 0, guardRe("proof was requested", `^true\(prove\)$`))
 			}
 		}
 		// the proof root is the data hash constructor (C10.R4 checks the leaves)
@@ -648,17 +651,22 @@ func init() {
 		if f := c.fn("types", "Block.ValidateBasic"); f != nil {
 			fk := funcKey(f)
 			n := 0
-			for _, b := range f.Blocks {
-				for _, in := range b.Instrs {
-					call, ok := in.(*ssa.Call)
-					if !ok || !call.Call.IsInvoke() || call.Call.Method.Name() != "ValidateBasic" {
-						continue
+			// in ValidateBasic itself or in a helper carved out of it: a method invoked on a value of the
+			// Evidence interface type
+			for _, g := range append([]*ssa.Function{f}, transparentBodies(f)...) {
+				for _, b := range g.Blocks {
+					for _, in := range b.Instrs {
+						call, ok := in.(*ssa.Call)
+						if !ok || !call.Call.IsInvoke() || call.Call.Method.Name() != "ValidateBasic" {
+							continue
+						}
+						nt, isNamed := call.Call.Value.Type().(*types.Named)
+						if !isNamed || nt.Obj().Name() != "Evidence" {
+							continue
+						}
+						n++
+						c.guards(g, call, fk+" :: validate a piece of evidence of the block", 0, guardNonNil("the list member is not nil", call.Call.Value))
 					}
-					if !strings.Contains(w.expr(call.Call.Value), ".Evidence.Evidence[") {
-						continue
-					}
-					n++
-					c.guards(f, call, fk+" :: validate a piece of evidence of the block", 0, guardNonNil("the list member is not nil", call.Call.Value))
 				}
 			}
 			c.Check(n == 1, fk+" :: evidence members validated", w.pos(f.Pos()), "1", fmt.Sprintf("%d", n))
